@@ -24,6 +24,7 @@ Definition dump_long (x : Z) : list Z :=
 
 Section Dumps.
   Variable repr_float : Z -> list Z.
+  Variable has_pos : bool.          (* the code objects written have co_posonlyargcount (Code38, Code310): dump_code3 writes it *)
 
   Definition dump_float_text (b : Z) : list Z := let s := repr_float b in zlen s :: s.
 
@@ -44,6 +45,11 @@ Section Dumps.
     | PSet l => 60 :: w_long (zlen l) ++ dump_all l
     | PFrozenSet l => 62 :: w_long (zlen l) ++ dump_all l
     | PDict kv => 123 :: (fix go (l : list (pv * pv)) : list Z := match l with [] => [] | (k, x) :: r => dumps k ++ dumps x ++ go r end) kv ++ [48]
+    (* dump_code3 (Python 3.0-3.10 targets): 'c', the integer fields, then each object field in turn *)
+    | PCode [argc; pos; kw; nloc; stk; fl; first] [code; consts; names; varn; freev; cellv; fname; name; _; lnotab; _] =>
+        99 :: w_long argc ++ (if has_pos then w_long pos else []) ++ w_long kw ++ w_long nloc ++ w_long stk ++ w_long fl
+           ++ dumps code ++ dumps consts ++ dumps names ++ dumps varn ++ dumps freev ++ dumps cellv ++ dumps fname ++ dumps name
+           ++ w_long first ++ dumps lnotab
     | PCode _ _ => []
     end.
 
@@ -55,6 +61,7 @@ Section Dumps.
     | PComplex (PFloat a) (PFloat b) => PComplex (PFloatText (repr_float a)) (PFloatText (repr_float b))
     | PTuple l => PTuple (all l) | PList l => PList (all l) | PSet l => PSet (all l) | PFrozenSet l => PFrozenSet (all l)
     | PDict kv => PDict ((fix go (l : list (pv * pv)) := match l with [] => [] | (k, x) :: r => (textify k, textify x) :: go r end) kv)
+    | PCode ints objs => PCode ints (all objs)
     | _ => v
     end.
 End Dumps.
